@@ -137,6 +137,10 @@ def run(rep, tier, seed):
 
 def replay(rep, path):
     import json
+    if str(json.load(open(path)).get('kind', '')).startswith('K8-'):
+        import k8check
+        return k8check.replay(rep, path, 'C20')
+    import json
     r = json.load(open(path))
     if r.get('kind') == 'K1-differential':
         out = vlib.scratch_dir(); k1 = vlib.build_k1(out, 'nothread'); model = vlib.ensure_model()
